@@ -14,6 +14,9 @@ CLAIMED={
 CLAIMED["C12"]=("Bounded symbolic execution of the real evaluator (evalIf, evalShortCutInfix/canShortCut, isTruthy, evalJumpIf*, Obj#!, per-type B built-ins) through parsed programs in the bootstrapped world: the condition is a value of each built-in kind with a symbolic payload (any int64, any float64 bit pattern, either boolean returned by a user-defined B ...); on every feasible path z3 discharges that B, if/else, if, !, &&, ||, guarded return/raise/yield/defer all follow the one truth value, evaluate exactly one branch / the right operand at most once, and return the deciding operand itself. Holds for all payload values within the listed kinds and templates.",
         TRUST,
         "SMT-decided bounded symbolic execution of go/ssa (z3, bit-vectors + FP)")
+CLAIMED["C15"]=("Bounded symbolic execution of the real evalStmts/_evalStmts/evalDefer/evalJumpIf*/evalPanFuncCall through generated programs: every body of 1..3 (thorough 1..4) statements over 7 statement kinds, with the exit point k and each defer guard an arbitrary int64; on every feasible path z3 discharges equality of the observed mark trace and outcome with the reference model (reached defers run once, in order, after the body; outcome unchanged unless a defer raises), including the caller continuing afterwards.",
+        TRUST,
+        "SMT-decided bounded symbolic execution of go/ssa (z3, bit-vectors); program shapes enumerated by solver-decided choices")
 NA={
 }
 DEFAULT_NA="check under construction in this session (engine exists; harness not yet registered)"
